@@ -42,8 +42,36 @@ def allowed(rec):
 
 
 def r18_1(ctx):
+    return classify_recs(ctx, sites.analyse(ctx, sites.lower_entries(ctx) + sites.stack_level_entries(ctx)), 'R18.1')
+
+
+def e18_1(ctx):
+    return classify_recs(ctx, sites.analyse(ctx, sites.e2e_entries(ctx)), 'E18.1')
+
+
+def _inside_reread(ctx, q, rec, esc):
+    """every escaping error belongs to a write-side lookup that runs after a publish (the re-read of the miss path)"""
+    wt = ctx.role('write_trait')
+    ins = ctx.insert_methods()
+    get_impls = set()
+    for name, role in ins.items():
+        if role == 'get':
+            get_impls |= ctx.cg.impl_targets(wt, name)
+    pubs = q.prim_edges({'publish_replace', 'publish_excl'})
+    if not pubs:
+        return False
+    for (_e0, x) in esc:
+        owners = [e for e in rec['edges'] if sites.result_value(q.E[e][2]) == q.E[x][2]['val']]
+        for e in owners:
+            if not (set(q.E[e][2]['ctx']) & get_impls):
+                return False
+            if q.must_precede(pubs, [e]):
+                return False
+    return True
+
+
+def classify_recs(ctx, recs, rule):
     out = []
-    recs = sites.analyse(ctx, sites.lower_entries(ctx) + sites.stack_level_entries(ctx))
     for rec in recs:
         q = rec['q']
         key = '%s|%s' % (rec['entry'], rec['site'])
@@ -79,6 +107,8 @@ def r18_1(ctx):
                     path = witness_path(q, bad[0])
                 else:
                     detail = 'best-effort site: ' + why
+            elif rule.startswith('E') and _inside_reread(ctx, q, rec, esc):
+                detail = 'best-effort site: re-read after the put falls back to the pre-opened handle (fully inlined)'
             elif kind == 'eexist_touch' and rec['benign'] and not rec['benign_bad']:
                 detail = 'absence after link-EEXIST is benign; other errors propagate'
                 if any(True for (e, x) in rec['escapes_without_mkdir']) and not rec['benign']:
@@ -90,7 +120,7 @@ def r18_1(ctx):
                 path = witness_path(q, x)
         elif rec['benign']:
             detail = 'absence classified as benign, other errors propagate'
-        out.append(inst('R18.1', key, ok, detail, path=path))
+        out.append(inst(rule, key, ok, detail, path=path))
     return out
 
 
@@ -111,22 +141,19 @@ def r18_2(ctx):
                         'every Ok exit is dominated by publish:Ok or link-EEXIST (%d Ok exits)' % len(oks) if not bad else
                         'the write can report success without having published the file',
                         path=path_brief(q.witness(bad[0], blocked=A) or []) if bad else []))
-    fk = ctx.role('finalizer')
-    q = ctx.explore(fk)
-    oks = q.terminals(lambda ev: ev['k'] == 'ret' and ev.get('variant') == 'Ok')
-    for cls, what in (('meta_perm', 'chmod'), ('close', 'close')):
-        E = q.prim_edges(cls)
-        if cls == 'close':
-            # close's integer result is converted by a local helper returning io::Result
-            A = q.edges(lambda ev: ev['k'] == 'refine' and ev['vname'] == 'Ok' and VAL[ev['val']][0] == 'sym' and VAL[ev['val']][1] == 'app'
-                        and VAL[ev['val']][2].startswith('local::') and any(VAL[s][0] == 'sym' and VAL[s][1] == 'app' and VAL[s][2] == 'libc::close' for s in values.subs(ev['val'])))
-        else:
+    for fk in ctx.role('finalizers'):
+        q = ctx.explore(fk)
+        oks = q.terminals(lambda ev: ev['k'] == 'ret' and ev.get('variant') == 'Ok')
+        for cls, what in (('meta_perm', 'chmod'), ('close', 'close')):
+            E = q.prim_edges(cls)
+            if not E:
+                continue      # a helper that does not perform this step has nothing to report for it
             A = outcomes(q, E, 'Ok')
-        r = q.reach_fwd([q.g.entry], blocked=A)
-        bad = [t for t in oks if t in r]
-        out.append(inst('R18.2', 'finalizer|%s' % what, not bad and bool(E),
-                        'every Ok exit of the finalizer is dominated by %s:Ok' % what if not bad else
-                        'the finalizer can return Ok although %s failed or was skipped' % what))
+            r = q.reach_fwd([q.g.entry], blocked=A)
+            bad = [t for t in oks if t in r]
+            out.append(inst('R18.2', 'finalizer %s|%s' % (ctx.B[fk]['name'], what), not bad,
+                            'every Ok exit of the finalizer is dominated by %s:Ok' % what if not bad else
+                            'the finalizer can return Ok although %s failed or was skipped' % what))
     return out
 
 
@@ -177,3 +204,11 @@ def run(ctx):
 
 def run_fixture(fctx):
     return {'R18.3': sum(1 for i in r18_3(fctx) if not i['ok'])}
+
+
+THOROUGH_FLOORS = {'E18.1': 150}
+
+
+def run_thorough(ctx):
+    from runner import collect
+    return collect(ctx, e18_1)
